@@ -1,5 +1,5 @@
 (* C05 — results do not depend on worker count or completion order. *)
-From Verif Require Import Prelude Schedule ScheduleP ScheduleRed ScheduleRedP.
+From Verif Require Import Prelude Schedule ScheduleP ScheduleRed ScheduleRedP PairCount RoundRobin RoundRobinP.
 From Coq Require Import Permutation.
 Open Scope nat_scope.
 
@@ -67,6 +67,42 @@ Theorem C05_reduce_by_arrival_rounding_refuted :
 Proof. exact reduce_by_arrival_rounding_refuted. Qed.
 Print Assumptions C05_reduce_by_arrival_rounding_refuted.
 
+(* ---------------- the job list: PatchLinkage.iter_patch_id_pairs as the algorithm it is ---------------- *)
+(* the while loop over the emptied dictionary ends for every dictionary of sets that contain their own key ... *)
+Theorem C05_job_iterator_terminates : forall auto (st : rr_state),
+  (forall e, In e st -> In (fst e) (snd e)) -> exists ys, iter_pairs auto st = Some ys.
+Proof. exact rr_defined. Qed.
+Print Assumptions C05_job_iterator_terminates.
+(* ... and the only other outcome is the KeyError of links.remove(i) *)
+Theorem C05_job_iterator_keyerror : forall auto (st : rr_state),
+  iter_pairs auto st = None <-> exists e, In e st /\ ~ In (fst e) (snd e).
+Proof. exact rr_keyerror. Qed.
+Print Assumptions C05_job_iterator_keyerror.
+(* whatever order set.pop() hands the elements out in, the jobs are the documented ones (C01's id_pairs) ... *)
+Theorem C05_job_iterator_refines_spec : forall auto lk ids ys,
+  (forall i, NoDup (lk i)) -> iter_pairs auto (dict_of lk ids) = Some ys -> Permutation ys (id_pairs auto lk ids).
+Proof. exact rr_refines_id_pairs. Qed.
+Print Assumptions C05_job_iterator_refines_spec.
+(* ... no job is listed twice (the premise of the keyed-write theorems above) ... *)
+Theorem C05_job_iterator_no_job_twice : forall auto lk ids ys,
+  NoDup ids -> (forall i, NoDup (lk i)) -> iter_pairs auto (dict_of lk ids) = Some ys -> NoDup ys.
+Proof. exact rr_no_job_twice. Qed.
+Print Assumptions C05_job_iterator_no_job_twice.
+(* ... two runs whose sets pop in different orders list the same jobs up to order ... *)
+Theorem C05_job_iterator_pop_order_free : forall auto st st2 ys ys2,
+  Forall2 same_sets st st2 -> (forall e, In e st -> NoDup (snd e)) ->
+  iter_pairs auto st = Some ys -> iter_pairs auto st2 = Some ys2 -> Permutation ys ys2.
+Proof. exact rr_pop_order_free. Qed.
+Print Assumptions C05_job_iterator_pop_order_free.
+(* ... and a cross-correlation has exactly num_links jobs (the total the progress indicator is given) *)
+Theorem C05_job_iterator_cross_count : forall st ys, iter_pairs false st = Some ys -> length ys = num_links st.
+Proof. exact rr_cross_job_count. Qed.
+Print Assumptions C05_job_iterator_cross_count.
+Example C05_job_iterator_concrete :
+  iter_pairs true [(0, [2; 0; 1]); (1, [1; 0]); (2, [0; 2])] = Some [(0, 0); (1, 1); (2, 2); (0, 2); (0, 1)] /\
+  iter_pairs false [(0, [2; 0; 1]); (1, [1; 0]); (2, [0; 2])] = Some [(0, 0); (1, 1); (2, 2); (0, 2); (1, 0); (2, 0); (0, 1)] /\
+  iter_pairs true [(0, [1]); (1, [1; 0])] = None.
+Proof. vm_compute. repeat split; reflexivity. Qed.
 Example C05_concrete :
   let r01 := {| id1 := 0; id2 := 1; sw1 := [2%Q]; sw2 := [3%Q]; cnts := [[5%Q]] |} in
   let r00 := {| id1 := 0; id2 := 0; sw1 := [2%Q]; sw2 := [2%Q]; cnts := [[4%Q]] |} in
